@@ -9,7 +9,7 @@ var profCb = &Profile{
 	Name: "C17-callbacks", MinOps: 3, MaxOps: 40, NColls: 3, MemPct: 10, Cmps: true, BigVals: true, BigKeys: true, EndOnly: 40, Snaps: true,
 	Kinds: []wk{{OpSet, 30}, {OpSetR, 3}, {OpDel, 10}, {OpGet, 6}, {OpGetItem, 4}, {OpMin, 2}, {OpMax, 2}, {OpTotals, 2}, {OpVisit, 10},
 		{OpFlush, 12}, {OpEvict, 8}, {OpReopen, 7}, {OpSetColl, 3}, {OpRmColl, 1}, {OpExist, 1}, {OpCopyTo, 2}, {OpSnap, 2}, {OpSnapClose, 2},
-		{OpLen, 1}, {OpBlock, 1}, {OpRevert, 1}, {OpSet, 3}},
+		{OpLen, 1}, {OpBlock, 1}, {OpRevert, 1}, {OpBadSet, 3}, {OpSet, 3}},
 }
 
 const c17Rule = "all 256 subsets of {ItemAlloc, ItemAddRef/DecRef, ItemValLength, ItemValWrite (chunked), ItemValRead (chunked), BeforeItemWrite, AfterItemRead, KeyCompareForCollection} are enumerated round-robin (subset = case number mod 256) over rapid-generated histories (lookups, range visits through all six APIs, Flush, evict, re-open, comparators, big keys/values); oracles of C01/C02/C06/C14 stay on (reference map after every op, probe re-open after every op, range sequences, independent decoder after every Flush) and the final file image must be byte-identical to the image the same history produces with no callbacks. Non-trivial = >=2 callbacks installed, at least one of them actually invoked, and the history contains a flush plus an effective evict or re-open."
@@ -31,7 +31,13 @@ func init() {
 		Rule: c17Rule}
 	s.Assumptions = append(append([]string{}, commonAssumptions...), "neutral callbacks as described in the property: same bytes, possibly chunked; identity hooks; the comparator the collection was created with")
 	Specs["C17"] = s
-	replayers["C17"] = func(c Case) *Violation { return RunC17(c) }
+	replayers["C17"] = func(c Case) *Violation {
+		if c.Cfg.FailAt > 0 {
+			v, _, _ := runC17Fault(c)
+			return v
+		}
+		return RunC17(c)
+	}
 }
 
 // RunC17 runs the case with its callback subset and without callbacks and
@@ -44,24 +50,34 @@ func RunC17(c Case) *Violation {
 func runC17(c Case) (*Violation, map[string]int) {
 	opts := Specs["C17"].Opts
 	var img1, img2 []byte
-	mem := false
 	opts.After = func(w *World) {
 		if w.file != nil {
 			img1 = w.file.Image()
-		} else {
-			mem = true
 		}
 	}
-	v, ev := Run(c, opts)
-	if v != nil || mem {
-		return v, ev
-	}
+	v1, ev := Run(c, opts)
 	plain := c
 	plain.Cfg.Callbacks = 0
-	opts.After = func(w *World) { img2 = w.file.Image() }
-	if v2, _ := Run(plain, opts); v2 != nil {
-		v2.Sig = "without-callbacks:" + v2.Sig
+	opts.After = func(w *World) {
+		if w.file != nil {
+			img2 = w.file.Image()
+		}
+	}
+	v2, _ := Run(plain, opts)
+	// C17 is a differential property: it is violated when installing neutral
+	// callbacks changes an outcome.  A failure that shows up identically without
+	// callbacks is some other property's business and is not reported here.
+	switch {
+	case v1 != nil && v2 == nil:
+		v1.Msg = "with callback subset " + itoa(c.Cfg.Callbacks) + " installed (and not without callbacks): " + v1.Msg
+		return v1, ev
+	case v1 == nil && v2 != nil:
+		v2.Sig = "only-without-callbacks:" + v2.Sig
+		v2.Msg = "the same history fails WITHOUT callbacks but passes with subset " + itoa(c.Cfg.Callbacks) + ": " + v2.Msg
 		return v2, ev
+	case v1 != nil && v2 != nil:
+		ev["fails_with_and_without_callbacks"]++
+		return nil, ev
 	}
 	if string(img1) != string(img2) {
 		i := 0
@@ -72,8 +88,28 @@ func runC17(c Case) (*Violation, map[string]int) {
 			Msg: "the file written with callbacks installed differs from the file written without them (sizes " +
 				itoa(len(img1)) + " vs " + itoa(len(img2)) + ", first difference at offset " + itoa(i) + ")"}, ev
 	}
-	ev["file_identical_to_callback_free_run"]++
+	if img1 != nil {
+		ev["file_identical_to_callback_free_run"]++
+	}
 	return nil, ev
+}
+
+// runC17Fault runs one faulted execution with the case's callback subset and,
+// if it fails, the same execution without callbacks: only a difference counts.
+func runC17Fault(fc Case) (*Violation, map[string]int, *FaultPlan) {
+	v1, ev, plan := RunFault(fc)
+	if v1 == nil {
+		return nil, ev, plan
+	}
+	plain := fc
+	plain.Cfg.Callbacks = 0
+	v2, _, _ := RunFault(plain)
+	if v2 != nil {
+		ev["fails_with_and_without_callbacks"]++
+		return nil, ev, plan
+	}
+	v1.Msg = "with callback subset " + itoa(fc.Cfg.Callbacks) + " installed (the same faulted execution passes without callbacks): " + v1.Msg
+	return v1, ev, plan
 }
 
 func itoa(i int) string {
